@@ -250,6 +250,7 @@ def deserBody (T : Table) (auto : Bool) (rec : Bytes → Option (List Arg) → O
       | some (_, bit) =>
         match flagVal T acc with
         | some (.int m) => some (maskBit m bit)
+        | some (.bool b) => some (maskBit (if b then 1 else 0) bit)      -- `bin(True)` = '0b1': a bool is an int
         | _ => none
     match present with
     | none => none
